@@ -90,7 +90,18 @@ pub fn relational() -> bool {
     RELATIONAL.load(std::sync::atomic::Ordering::Relaxed)
 }
 
+/// relational properties (C06, C17, C18: "A behaves exactly like B") are not about whether anything panics - a panic of the
+/// shared real code takes both sides down alike and is C08's hit: with SWEEP_PANIC_NOT_MINE=1 a panic ends that scenario
+/// without counting
+pub static PANIC_NOT_MINE: std::sync::atomic::AtomicBool = std::sync::atomic::AtomicBool::new(false);
+pub fn panic_not_mine() -> bool {
+    PANIC_NOT_MINE.load(std::sync::atomic::Ordering::Relaxed)
+}
+
 fn main() {
+    if std::env::var("SWEEP_PANIC_NOT_MINE").map(|v| v == "1").unwrap_or(false) {
+        PANIC_NOT_MINE.store(true, std::sync::atomic::Ordering::Relaxed);
+    }
     if std::env::var("SWEEP_RELATIONAL").map(|v| v == "1").unwrap_or(false) {
         RELATIONAL.store(true, std::sync::atomic::Ordering::Relaxed);
     }
@@ -298,7 +309,11 @@ fn main() {
                 Ok(false) => println!("RESULT MISMATCH"),
                 Err(e) => {
                     let msg = if let Some(s) = e.downcast_ref::<&str>() { s.to_string() } else if let Some(s) = e.downcast_ref::<String>() { s.clone() } else { "panic".to_string() };
-                    println!("RESULT PANIC: {}", msg)
+                    if panic_not_mine() {
+                        println!("RESULT agrees (the real code panicked: {} - a panic is C08's hit, not this relational property's)", msg)
+                    } else {
+                        println!("RESULT PANIC: {}", msg)
+                    }
                 }
             }
         }
